@@ -713,6 +713,9 @@ SOURCE_DOCS = [
     ('heartbeat', 'utf-8', '<mos><mosID>m</mosID><ncsID>n</ncsID><messageID>11</messageID><heartbeat><time>2020-01-01T00:00:00</time>'
                            '</heartbeat></mos>'),
     ('roReq', 'ascii', '<mos><messageID>13</messageID><roReq><roID>R</roID></roReq></mos>'),
+    # character references and CDATA sections (with characters that would need escaping outside them)
+    ('charrefs-cdata', 'utf-8', '<mos><messageID>14</messageID><roStoryAppend><roID>R</roID><story><storyID>caf&#233; &#x26; co &#60;1&#62;</storyID>'
+                                '<storySlug><![CDATA[AT&T <b> &amp; ]]]]><![CDATA[>]]></storySlug><p>&#160;x&#x1F600;</p></story></roStoryAppend></mos>'),
     ('ascii-pretty', 'ascii', '<mos>\n  <mosID>m</mosID>\n  <messageID>7</messageID>\n  <roStoryMove>\n    <roID>R</roID>\n'
                               '    <storyID>a</storyID>\n    <storyID/>\n  </roStoryMove>\n</mos>\n'),
 ]
@@ -990,7 +993,7 @@ SCENARIOS = {
     'bad-message-id': ['roCreate', 'roStoryMove@abc', 'roDelete'],
     'blank-message-id': ['roCreate', 'roStoryMove@', 'roDelete'],
     # two messages that share a message ID are merged in the order listed, whatever their file names
-    'same-id-listed-against-name-order': ['roCreate#m', 'roStoryAppend@20#zz', 'roStoryAppend@20#aa', 'roDelete#n'],
+    'same-id-listed-against-name-order': ['roCreate#m', 'roStoryAppend@20#zz', 'roStoryAppend@20#aa', 'roDelete@30#n'],
     'listed-against-name-order': ['roStorySend@20#b', 'roDelete@30#a', 'roCreate@5#c'],
 }
 
